@@ -28,7 +28,7 @@ use crate::{
 /// Uiua's array type
 #[derive(Clone, Serialize, Deserialize)]
 #[serde(
-    from = "ArrayRep<T>",
+    try_from = "ArrayRep<T>",
     into = "ArrayRep<T>",
     bound(
         serialize = "T: ArrayValueSer + Serialize",
@@ -1448,8 +1448,26 @@ enum ArrayRep<T: ArrayValueSer> {
     Full(Shape, T::Collection, ArrayMeta),
 }
 
-impl<T: ArrayValueSer> From<ArrayRep<T>> for Array<T> {
-    fn from(rep: ArrayRep<T>) -> Self {
+impl<T: ArrayValueSer> TryFrom<ArrayRep<T>> for Array<T> {
+    type Error = String;
+    fn try_from(rep: ArrayRep<T>) -> Result<Self, Self::Error> {
+        // The text may come from anywhere, and everything that walks an array
+        // trusts its shape, so the shape must be checked against the data
+        fn check_shape<T>(shape: &Shape, data: &[T]) -> Result<(), String> {
+            let elems = if shape.contains(&0) {
+                Some(0)
+            } else {
+                (shape.iter()).try_fold(1usize, |acc, &dim| acc.checked_mul(dim))
+            };
+            if elems == Some(data.len()) {
+                Ok(())
+            } else {
+                Err(format!(
+                    "shape {shape:?} does not match data length {}",
+                    data.len()
+                ))
+            }
+        }
         let mut arr = match rep {
             ArrayRep::Scalar(data) => Self::new([], [data.into()]),
             ArrayRep::List(data) => {
@@ -1458,16 +1476,19 @@ impl<T: ArrayValueSer> From<ArrayRep<T>> for Array<T> {
             }
             ArrayRep::Map(shape, keys, data) => {
                 let data = T::make_data(data);
+                check_shape(&shape, &data)?;
                 let mut arr = Self::new(shape, data);
                 _ = arr.map(keys, Context::NONE);
                 arr
             }
             ArrayRep::Metaless(shape, data) => {
                 let data = T::make_data(data);
+                check_shape(&shape, &data)?;
                 Self::new(shape, data)
             }
             ArrayRep::Full(shape, data, meta) => {
                 let data = T::make_data(data);
+                check_shape(&shape, &data)?;
                 Self { shape, data, meta }
             }
         };
@@ -1493,7 +1514,7 @@ impl<T: ArrayValueSer> From<ArrayRep<T>> for Array<T> {
         }
         arr.meta.mark_sorted_up(is_sorted_up);
         arr.meta.mark_sorted_down(is_sorted_down);
-        arr
+        Ok(arr)
     }
 }
 
